@@ -21,6 +21,7 @@ import (
 	"reflect"
 	"sort"
 	"strings"
+	"time"
 
 	"github.com/blinklabs-io/gouroboros/cbor"
 	lcommon "github.com/blinklabs-io/gouroboros/ledger/common"
@@ -44,7 +45,7 @@ import (
 )
 
 func init() {
-	register(&Prop{ID: "C04", Gen: genC04, Run: runC04})
+	register(&Prop{ID: "C04", Gen: genC04, Run: runC04, Timeout: 60 * time.Second})
 }
 
 type c04Proto struct {
@@ -145,7 +146,9 @@ var c04Protos = []*c04Proto{
 	{
 		name: "handshake", fromCbor: handshake.NewMsgFromCbor,
 		gens: []func(r *Rand) (protocol.Message, error){
-			func(r *Rand) (protocol.Message, error) { return okMsg(handshake.NewMsgProposeVersions(gVersionMap(r, r.Bool()))) },
+			func(r *Rand) (protocol.Message, error) {
+				return okMsg(handshake.NewMsgProposeVersions(gVersionMap(r, r.Bool())))
+			},
 			func(r *Rand) (protocol.Message, error) {
 				return okMsg(handshake.NewMsgAcceptVersion(gU16(r), protocol.VersionDataNtC9to14(uint32(r.U64()))))
 			},
@@ -158,7 +161,9 @@ var c04Protos = []*c04Proto{
 			func(r *Rand) (protocol.Message, error) {
 				return okMsg(handshake.NewMsgRefuse([]any{uint64(1 + r.Intn(2)), uint64(gU16(r)), "refused"}))
 			},
-			func(r *Rand) (protocol.Message, error) { return okMsg(handshake.NewMsgQueryReply(gVersionMap(r, r.Bool()))) },
+			func(r *Rand) (protocol.Message, error) {
+				return okMsg(handshake.NewMsgQueryReply(gVersionMap(r, r.Bool())))
+			},
 		},
 		types: map[uint]protocol.Message{0: &handshake.MsgProposeVersions{}, 1: &handshake.MsgAcceptVersion{}, 2: &handshake.MsgRefuse{}, 3: &handshake.MsgQueryReply{}},
 	},
@@ -187,7 +192,9 @@ var c04Protos = []*c04Proto{
 	{
 		name: "blockfetch", fromCbor: blockfetch.NewMsgFromCbor,
 		gens: []func(r *Rand) (protocol.Message, error){
-			func(r *Rand) (protocol.Message, error) { return okMsg(blockfetch.NewMsgRequestRange(gPoint(r), gPoint(r))) },
+			func(r *Rand) (protocol.Message, error) {
+				return okMsg(blockfetch.NewMsgRequestRange(gPoint(r), gPoint(r)))
+			},
 			func(r *Rand) (protocol.Message, error) { return okMsg(blockfetch.NewMsgClientDone()) },
 			func(r *Rand) (protocol.Message, error) { return okMsg(blockfetch.NewMsgStartBatch()) },
 			func(r *Rand) (protocol.Message, error) { return okMsg(blockfetch.NewMsgNoBlocks()) },
@@ -201,7 +208,9 @@ var c04Protos = []*c04Proto{
 	{
 		name: "txsubmission", fromCbor: txsubmission.NewMsgFromCbor,
 		gens: []func(r *Rand) (protocol.Message, error){
-			func(r *Rand) (protocol.Message, error) { return okMsg(txsubmission.NewMsgRequestTxIds(r.Bool(), gU16(r), gU16(r))) },
+			func(r *Rand) (protocol.Message, error) {
+				return okMsg(txsubmission.NewMsgRequestTxIds(r.Bool(), gU16(r), gU16(r)))
+			},
 			func(r *Rand) (protocol.Message, error) {
 				n := r.Intn(4)
 				ids := make([]txsubmission.TxIdAndSize, n)
@@ -355,7 +364,9 @@ var c04Protos = []*c04Proto{
 	{
 		name: "localmessagesubmission", fromCbor: localmessagesubmission.NewMsgFromCbor,
 		gens: []func(r *Rand) (protocol.Message, error){
-			func(r *Rand) (protocol.Message, error) { return okMsg(localmessagesubmission.NewMsgSubmitMessage(gDmq(r))) },
+			func(r *Rand) (protocol.Message, error) {
+				return okMsg(localmessagesubmission.NewMsgSubmitMessage(gDmq(r)))
+			},
 			func(r *Rand) (protocol.Message, error) { return okMsg(localmessagesubmission.NewMsgAcceptMessage()) },
 			func(r *Rand) (protocol.Message, error) {
 				var rr pcommon.RejectReason
@@ -379,7 +390,9 @@ var c04Protos = []*c04Proto{
 	{
 		name: "localmessagenotification", fromCbor: localmessagenotification.NewMsgFromCbor,
 		gens: []func(r *Rand) (protocol.Message, error){
-			func(r *Rand) (protocol.Message, error) { return okMsg(localmessagenotification.NewMsgRequestMessages(r.Bool())) },
+			func(r *Rand) (protocol.Message, error) {
+				return okMsg(localmessagenotification.NewMsgRequestMessages(r.Bool()))
+			},
 			func(r *Rand) (protocol.Message, error) {
 				return okMsg(localmessagenotification.NewMsgReplyMessagesNonBlocking(gDmqs(r), r.Bool()))
 			},
@@ -406,9 +419,15 @@ var c04Protos = []*c04Proto{
 				return okMsg(leiosfetch.NewMsgVotesRequest([]leiosfetch.MsgVotesRequestVoteId{{SlotNo: r.EdgeU64(), VoterId: r.EdgeU64()}}))
 			},
 			func(r *Rand) (protocol.Message, error) { return okMsg(leiosfetch.NewMsgVotes(gRaws(r))) },
-			func(r *Rand) (protocol.Message, error) { return okMsg(leiosfetch.NewMsgBlockRangeRequest(gPoint(r), gPoint(r))) },
-			func(r *Rand) (protocol.Message, error) { return okMsg(leiosfetch.NewMsgNextBlockAndTxsInRange(gRaw(r), gRaws(r))) },
-			func(r *Rand) (protocol.Message, error) { return okMsg(leiosfetch.NewMsgLastBlockAndTxsInRange(gRaw(r), gRaws(r))) },
+			func(r *Rand) (protocol.Message, error) {
+				return okMsg(leiosfetch.NewMsgBlockRangeRequest(gPoint(r), gPoint(r)))
+			},
+			func(r *Rand) (protocol.Message, error) {
+				return okMsg(leiosfetch.NewMsgNextBlockAndTxsInRange(gRaw(r), gRaws(r)))
+			},
+			func(r *Rand) (protocol.Message, error) {
+				return okMsg(leiosfetch.NewMsgLastBlockAndTxsInRange(gRaw(r), gRaws(r)))
+			},
 			func(r *Rand) (protocol.Message, error) { return okMsg(leiosfetch.NewMsgDone()) },
 			func(r *Rand) (protocol.Message, error) { return okMsg(leiosfetch.NewMsgNoBlock()) },
 			func(r *Rand) (protocol.Message, error) { return okMsg(leiosfetch.NewMsgNoBlockTxs()) },
@@ -421,7 +440,9 @@ var c04Protos = []*c04Proto{
 		gens: []func(r *Rand) (protocol.Message, error){
 			func(r *Rand) (protocol.Message, error) { return okMsg(leiosnotify.NewMsgNotificationRequestNext()) },
 			func(r *Rand) (protocol.Message, error) { return okMsg(leiosnotify.NewMsgBlockAnnouncement(gRaw(r))) },
-			func(r *Rand) (protocol.Message, error) { return okMsg(leiosnotify.NewMsgBlockOffer(gPoint(r), r.EdgeU64())) },
+			func(r *Rand) (protocol.Message, error) {
+				return okMsg(leiosnotify.NewMsgBlockOffer(gPoint(r), r.EdgeU64()))
+			},
 			func(r *Rand) (protocol.Message, error) { return okMsg(leiosnotify.NewMsgBlockTxsOffer(gPoint(r))) },
 			func(r *Rand) (protocol.Message, error) {
 				return okMsg(leiosnotify.NewMsgVotesOffer([]leiosnotify.MsgVotesOfferVote{{SlotNo: r.EdgeU64(), VoterId: r.EdgeU64()}}))
@@ -449,7 +470,9 @@ func chainsyncCommonGens() []func(r *Rand) (protocol.Message, error) {
 	return []func(r *Rand) (protocol.Message, error){
 		func(r *Rand) (protocol.Message, error) { return okMsg(chainsync.NewMsgRequestNext()) },
 		func(r *Rand) (protocol.Message, error) { return okMsg(chainsync.NewMsgAwaitReply()) },
-		func(r *Rand) (protocol.Message, error) { return okMsg(chainsync.NewMsgRollBackward(gPoint(r), gTip(r))) },
+		func(r *Rand) (protocol.Message, error) {
+			return okMsg(chainsync.NewMsgRollBackward(gPoint(r), gTip(r)))
+		},
 		func(r *Rand) (protocol.Message, error) {
 			n := r.Intn(5)
 			ps := make([]pcommon.Point, n)
@@ -458,7 +481,9 @@ func chainsyncCommonGens() []func(r *Rand) (protocol.Message, error) {
 			}
 			return okMsg(chainsync.NewMsgFindIntersect(ps))
 		},
-		func(r *Rand) (protocol.Message, error) { return okMsg(chainsync.NewMsgIntersectFound(gPoint(r), gTip(r))) },
+		func(r *Rand) (protocol.Message, error) {
+			return okMsg(chainsync.NewMsgIntersectFound(gPoint(r), gTip(r)))
+		},
 		func(r *Rand) (protocol.Message, error) { return okMsg(chainsync.NewMsgIntersectNotFound(gTip(r))) },
 		func(r *Rand) (protocol.Message, error) { return okMsg(chainsync.NewMsgDone()) },
 	}
@@ -602,7 +627,12 @@ func c04Mutate(r *Rand, t *cnode) []byte {
 			arrays = append(arrays, k)
 		}
 	})
-	switch r.Intn(8) {
+	switch r.Intn(9) {
+	case 8: // a tag number in front of a field / list / the whole message (not a shape the type allows,
+		// except #6.24 on byte fields); built-in tags 0..3 (content checked by fxamacker) are not used
+		k := t.nth(r.Intn(t.count()))
+		inner := k.clone()
+		*k = *cTag(uint64(Pick(r, 6, 24, 30, 100, 258, 259, 1000, 55799)), inner)
 	case 0: // arity +1 somewhere
 		a := arrays[r.Intn(len(arrays))]
 		a.kids = append(a.kids, Pick(r, cU(0), cB([]byte{1}), cA(), cNull()))
